@@ -117,6 +117,16 @@ def Mesg.fix (tbl : List (Nat × Nat)) (m : Mesg) : Mesg :=
 def TypeRow.fix (tbl : List (Nat × Nat)) (t : TypeRow) : TypeRow :=
   { t with name := fixName tbl t.name, consts := t.consts.map fun c => { c with name := fixName tbl c.name } }
 
+/-- **KF-C17-1, the complete list**: (spreadsheet spelling, generated spelling) of the identifiers the generator's spell
+checker rewrites: `cadence_zone_high_bondary → …_boundary` (a field of `time_in_zone`), `connect_iq_app_managment →
+…_management` (a constant of `connectivity_capabilities`), `degrees_farenheit → degrees_fahrenheit` (a constant of
+`exd_data_units`). ONE definition: the theorems of `FitProps/C17.lean` are stated with it and the `--kf` class predicate of
+the driver evaluates it, so the class is exactly these three identifiers. -/
+def f14 : List (Nat × Nat) := [
+  (0x1636164656e63655f7a6f6e655f686967685f626f6e64617279, 0x1636164656e63655f7a6f6e655f686967685f626f756e64617279),
+  (0x1636f6e6e6563745f69715f6170705f6d616e61676d656e74, 0x1636f6e6e6563745f69715f6170705f6d616e6167656d656e74),
+  (0x1646567726565735f666172656e68656974, 0x1646567726565735f66616872656e68656974)]
+
 /-- does the row carry one of the listed spreadsheet spellings? (class predicate of the finding) -/
 def FieldRow.mentions (tbl : List (Nat × Nat)) (f : FieldRow) : Bool :=
   tbl.any (·.1 == f.name) || f.subs.any fun s => tbl.any (·.1 == s.name)
